@@ -294,10 +294,8 @@ def bsf_wt(bsf):
                 'BSF {} is not in binary form'.format(bsf)
 
         n = bsf.shape[1] // 2
-        x_indices = bsf.indices[bsf.indices < n]
-        z_indices = bsf.indices[bsf.indices >= n] - n
 
-        return len(np.union1d(x_indices, z_indices))
+        return (bsf[:, :n] + bsf[:, n:]).getnnz()
     else:
         raise TypeError(
             f"bsf matrix should be a numpy array or "
